@@ -89,8 +89,12 @@ Definition write_idmap (k0 k1 : N) (m : id_map) : option bytes :=
   | _, _ => None
   end.
 
-(* comments are written unvalidated *)
+(* the text of a comment line; since /repo 9bfd7d2 write_comment refuses (InvalidInput) a comment
+   that contains a line feed or ends in a carriage return (co_valid), everything else is written
+   verbatim *)
 Definition write_co (c : bytes) : bytes := 64 :: 67 :: 79 :: 9 :: c.
+Definition co_valid (c : bytes) : bool := negb (existsb (N.eqb 10) c) && negb (last c 0 =? 13).
+Definition write_co_chk (c : bytes) : option bytes := if co_valid c then Some (write_co c) else None.
 
 Fixpoint write_all {A} (w : A -> option bytes) (l : list A) : option (list bytes) :=
   match l with
@@ -101,9 +105,9 @@ Fixpoint write_all {A} (w : A -> option bytes) (l : list A) : option (list bytes
 Definition write_header_lines (h : header) : option (list bytes) :=
   match (match h_hd h with None => Some [] | Some m => option_map (fun l => [l]) (write_hd m) end),
         write_all write_sq (h_sq h), write_all (write_idmap 82 71) (h_rg h),
-        write_all (write_idmap 80 71) (h_pg h) with
-  | Some a, Some b, Some c, Some d => Some (a ++ b ++ c ++ d ++ map write_co (h_co h))
-  | _, _, _, _ => None
+        write_all (write_idmap 80 71) (h_pg h), write_all write_co_chk (h_co h) with
+  | Some a, Some b, Some c, Some d, Some e => Some (a ++ b ++ c ++ d ++ e)
+  | _, _, _, _, _ => None
   end.
 
 Definition write_header (h : header) : option bytes :=
